@@ -39,10 +39,10 @@ type World struct {
 	// regEpoch: `notifier <epoch>` makes the notifiers of the worlds created AFTERWARDS confirm that epoch to every handler
 	// at registration (nil: handlers hear from the notifier through `epoch` ops only)
 	regEpoch *uint32
-	fault   int // armed fault index for the next call op, -1 = none
-	trace   bool
-	last    *CallResult
-	probe   *World // scratch world used by enccall
+	fault    int // armed fault index for the next call op, -1 = none
+	trace    bool
+	last     *CallResult
+	probe    *World // scratch world used by enccall
 }
 
 // New returns a session without a world: every op except `world` answers `noworld`.
@@ -71,6 +71,9 @@ func (w *World) ShardOf(addr []byte) uint32 {
 func (w *World) Present(shardID int, addr []byte) bool {
 	if bytes.Equal(addr, vmcommon.SystemAccountAddress) {
 		return true
+	}
+	if shardID >= 0 && shardID < len(w.shards) {
+		return w.ShardOf(addr) == w.shards[shardID].coord.self // the metachain id while `selfmeta <shard> on`
 	}
 	return w.ShardOf(addr) == uint32(shardID)
 }
@@ -166,6 +169,8 @@ func (w *World) Exec(line string) (obs string) {
 		return w.opRaw(args)
 	case "acct":
 		return w.opAcct(args)
+	case "selfmeta":
+		return w.opSelfMeta(args)
 	case "epoch":
 		return w.opEpoch(args)
 	case "gasmap":
@@ -574,6 +579,25 @@ func (w *World) opNotifier(a []string) string {
 	e32 := uint32(e)
 	w.regEpoch = &e32
 	return "notifier ok"
+}
+
+// opSelfMeta: `selfmeta <shard> on|off` - the node of this shard becomes (stops being) a METACHAIN node: its coordinator
+// answers SelfId() = the metachain id, so the accounts that "live here" are the metachain's (contracts whose address ends in
+// the metachain identifier) and the shard's ordinary accounts are elsewhere. State is kept as it is.
+func (w *World) opSelfMeta(a []string) string {
+	if len(a) != 2 || (a[1] != "on" && a[1] != "off") {
+		return obsBadOp
+	}
+	sh, ok := w.shardArg(a[0])
+	if !ok {
+		return obsBadOp
+	}
+	if a[1] == "on" {
+		sh.coord.self = vmcommon.MetachainShardId
+	} else {
+		sh.coord.self = sh.id
+	}
+	return "selfmeta ok"
 }
 
 func (w *World) opFault(a []string) string {
